@@ -269,7 +269,7 @@ const ID_START: &[&str] = &[
     "a", "b", "x", "Z", "Q", "_", "$", "<", "é", "ü", "漢", "𝒳", "L", "I", "V", "a", "b", "x", "@", "{", "\\", "/", "~", "\u{1f600}",
     // BMP characters above the surrogate range (UTF-8 byte order != UTF-16 code-unit order against supplementary
     // characters) and Unicode spaces that are legal in dex names (str::trim would strip them)
-    "Ａ", "\u{e000}", "\u{a0}", "\u{3000}",
+    "Ａ", "\u{e000}", "\u{a0}", "\u{3000}", "\u{feff}",
 ];
 const ID_CONT: &[&str] = &[
     "a", "b", "x", "Z", "0", "1", "9", "_", "$", "<", ">", "-", "[", "]", "é", "漢", "𝒳", ";", "a", "b", "0", "\"", "\\", "/", "@", "{", "}", "!", "?", "*", "+", "=", "~", "^", "%", "&", "|", "'", "`",
@@ -603,8 +603,23 @@ pub fn separate_inline_groups(items: Vec<Item>) -> Vec<Item> {
 }
 
 pub fn block(cfg: &GenCfg) -> BoxedStrategy<Block> {
-    (orig_class(cfg), obf_class(cfg), block_items(cfg))
-        .prop_map(|(orig, obf, items)| Block { orig, obf, items })
+    (orig_class(cfg), obf_class(cfg), block_items(cfg), 0u8..100)
+        .prop_map(|(orig, obf, mut items, dice)| {
+            // an entry may be qualified with its OWN enclosing class (it still "has an original class": the
+            // foreign-class file rule applies to it like to any other qualified entry)
+            if dice < 12 {
+                let mut k = dice as usize;
+                for it in items.iter_mut() {
+                    if let Item::Method(m) = it {
+                        k += 1;
+                        if k % 3 == 0 {
+                            m.oclass = Some(orig.clone());
+                        }
+                    }
+                }
+            }
+            Block { orig, obf, items }
+        })
         .boxed()
 }
 
